@@ -173,6 +173,8 @@ def enum_world(seed):
             on_disk = set(initial)
             hist = []
             for step in range(rnd.randint(2, 6)):
+                if trial % 2:
+                    ws = WorldFile(path, gid=os.getgid())     # every other trial: each update by a newly opened set (one pmerge run after another, however quickly)
                 a = atom(rnd.choice(names) + ((":" + s_) if (s_ := rnd.choice(slots)) else ""))
                 remove = rnd.random() < .4
                 interrupt = rnd.random() < .25
@@ -191,7 +193,8 @@ def enum_world(seed):
                         pmerge.update_worldset(ws, a, remove=remove)
                         on_disk = set(model)
                 except OSError:
-                    pass
+                    if trial % 2:
+                        model = set(on_disk)      # the next request comes from a newly opened set: what the failed update had in memory is gone with it
                 except Exception as exc:
                     if len(fails) < 4:
                         fails.append({"model": {"initial": initial, "history": list(hist)},
@@ -206,7 +209,7 @@ def enum_world(seed):
                     pass
     finally:
         shutil.rmtree(scratch, ignore_errors=True)
-    return {"name": "C30.world_updates.bounded_enumeration", "bound": "120 seeded world files (0..3 entries) x 2..6 add / remove requests over 3 packages and 9 slot shapes through pmerge.update_worldset on the real WorldFile, "
+    return {"name": "C30.world_updates.bounded_enumeration", "bound": "120 seeded world files (0..3 entries) x 2..6 add / remove requests over 3 packages and 9 slot shapes through pmerge.update_worldset on the real WorldFile (in every other file each request through a newly opened WorldFile), "
             "a quarter of the updates interrupted at the final rename (and later retried by chance); file content compared after every step", "cases": cases, "failures": fails}
 
 
